@@ -617,6 +617,31 @@ fn gen_checksummed(strings: &[String], short_len: usize) -> Vec<Case> {
     out
 }
 
+/// A token that has to be a leaf (number, key, hash, constant) given children of its own: after
+/// every leaf token of every valid string, one of a few bracketed argument lists is inserted.
+fn gen_leaf_with_children(strings: &[String]) -> Vec<Case> {
+    let tails = ["()", "(A)", "(pk(A))", "(pk(A),pk(B))", "(TRIVIAL,TRIVIAL)", "(0)", "(1,2)", "{A,B}", "(("];
+    let mut out = vec![];
+    let mut srcs: Vec<String> = strings.iter().filter(|s| s.len() <= 60).cloned().collect();
+    srcs.extend(["older(1)", "after(1)", "and(pk(A),older(144))", "or(pk(A),after(10))", "thresh(1,older(5),after(7))", "sha256(aa)", "pk(A)", "TRIVIAL", "UNSATISFIABLE", "wsh(and_v(v:pk(A),older(5)))", "tr(A,and_v(v:pk(B),after(9)))"].iter().map(|s| s.to_string()));
+    for s in &srcs {
+        let ch: Vec<char> = s.chars().collect();
+        for i in 0..ch.len() {
+            let is_tok = ch[i].is_ascii_alphanumeric() || ch[i] == '\'' || ch[i] == '*';
+            let end = i + 1 == ch.len() || matches!(ch[i + 1], ',' | ')' | '}' | '#');
+            if is_tok && end {
+                for t in tails {
+                    let mut d: String = ch[..=i].iter().collect();
+                    d.push_str(t);
+                    d.extend(ch[i + 1..].iter());
+                    out.push(scase(d, "leaf-with-children", 3000));
+                }
+            }
+        }
+    }
+    out
+}
+
 fn gen_scaling() -> Vec<Case> {
     let mut out = vec![];
     let b = 20_000u64;
@@ -1101,6 +1126,7 @@ pub fn run(tier: Tier) -> i32 {
     groups.push(("single-edits", gen_single_edits(&vs, tier.pick(60, 200))));
     groups.push(("valid-strings", vs.iter().map(|s| scase(s.clone(), "valid-string", 3000)).collect()));
     groups.push(("checksummed", gen_checksummed(&vs, short_len.min(3))));
+    groups.push(("leaf-with-children", gen_leaf_with_children(&vs)));
     groups.push(("scaling", gen_scaling()));
     groups.push(("scripts", gen_scripts(script_len, script_nodes)));
     groups.push(("interpreter", gen_interp()));
@@ -1152,7 +1178,7 @@ pub fn run(tier: Tier) -> i32 {
         done,
         total,
         done.min(total),
-        "string parsers (22 entry points per string): all strings up to the length bound over a 22-character alphabet, all grammar-token sequences up to the token bound, every single edit of every valid string from the term enumeration, malformed bodies (short strings, token pairs, single edits and every truncation of valid strings) carrying a valid checksum of themselves, scaling probes (nesting 400..200000, width up to 100000, megabyte names, 1..40-digit numbers); script decoder: token sequences, raw bytes, truncations and opcode substitutions of valid scripts, deep/wide scripts; interpreter: standard spk templates and truncations x scriptSigs x witness sequences, and every B term up to the term bound (full leaf alphabet) as wsh script and tr leaf x every witness stack up to the stack bound over {<>, <1>, signature, 32 bytes, key}; PSBT: every fully-populated reachable state of 5 descriptor pairs with each field dropped / emptied / replaced by a boundary value, through finalize*, extract, update_*, sighash_msg; planner: descriptors over origin-less and origin-carrying keys x asset fingerprints x derivation paths x CanSign/time-lock flags. non-trivial = cases completed by the workers",
+        "string parsers (22 entry points per string): all strings up to the length bound over a 22-character alphabet, all grammar-token sequences up to the token bound, every single edit of every valid string from the term enumeration, malformed bodies (short strings, token pairs, single edits and every truncation of valid strings) carrying a valid checksum of themselves, every leaf token of every valid string given a bracketed argument list, scaling probes (nesting 400..200000, width up to 100000, megabyte names, 1..40-digit numbers); script decoder: token sequences, raw bytes, truncations and opcode substitutions of valid scripts, deep/wide scripts; interpreter: standard spk templates and truncations x scriptSigs x witness sequences, and every B term up to the term bound (full leaf alphabet) as wsh script and tr leaf x every witness stack up to the stack bound over {<>, <1>, signature, 32 bytes, key}; PSBT: every fully-populated reachable state of 5 descriptor pairs with each field dropped / emptied / replaced by a boundary value, through finalize*, extract, update_*, sighash_msg; planner: descriptors over origin-less and origin-carrying keys x asset fingerprints x derivation paths x CanSign/time-lock flags. non-trivial = cases completed by the workers",
         true,
     )
 }
